@@ -47,22 +47,22 @@ CHECKS = {
     "C06": ("exploration",
             "purity monitor: buffer sha256 before/after, field-level digests of to_json() across two in-process runs and fresh processes under PYTHONHASHSEED 0/1/2/random, random observer words with digest before/between/after",
             "The same (bytes, path) is extracted twice in one process and once per fresh worker process under four hash-seed settings; field-level digests of canonical to_json() must agree everywhere; "
-            "the caller's buffer must be unchanged; a seeded random word over 13 observers (full text, units, unit accessors, images, bytes, tables, metadata, to_json) must leave every later observation and the JSON unchanged.",
+            "the caller's buffer must be unchanged; a seeded random word over 13 observers (full text, units, unit accessors, images, bytes, tables, metadata, to_json) must leave every later observation and the JSON unchanged. Earlier results are kept alive and re-digested after later extractions with other inputs and path arguments (a result, once returned, never changes); context groups of inputs that share a sub-key but differ in the context that gives it meaning.",
             "A relative non-existent path keeps host state out of file metadata; differences are localised two levels deep.",
             "DESIGN.md §8 C06"),
     "C07": ("exploration",
             "recording stubs on the 21 extractor functions + README-derived routing table; path grammar x 5 mimetypes configurations, each in its own worker process",
             "A routing table transcribed by hand from the README decides which extractor every documented extension/alias must reach; a path grammar (all known extensions, case variants, "
             "dots/spaces/unicode/URL/compound forms) is evaluated under default, emptied and hostile MIME databases; is_supported_file == get_extractor-succeeds, only the not-supported error, "
-            "alias == base, MIME-independence of routed extensions, and read_file dispatch observed through stubs on real temp files.",
+            "alias == base, MIME-independence of routed extensions, and read_file dispatch observed through stubs on real temp files. In-process sequences ask the same paths again after every change of the MIME database (configurations swapped, single types added / removed).",
             "Trusts the README tables as the specification of routing; Windows path semantics are not observable on this host.",
             "DESIGN.md §8 C07"),
     "C08": ("exploration",
-            "(plain, protected-or-lookalike) pairs per protection mechanism built from generated documents; exception-surface monitor through three entry points; PDFs encrypted by an independent AES",
+            "(plain, protected-or-lookalike) pairs per protection mechanism built from generated documents; exception-surface monitor through four entry points; PDFs encrypted by an independent AES",
             "For OOXML-in-OLE (EncryptionInfo/EncryptedPackage/DataSpaces), ODF manifest encryption-data (two namespace spellings) and look-alike plain manifests, DOC FIB flag, XLS FILEPASS at three record positions, "
             "PPT encrypted-summary streams, ZIP flag bit on first/last/only member, 7z AES coder in the main folder / one of several folders / the encoded header, EPUB encryption.xml / rights.xml / empty encryption.xml, "
-            "PDF RC4-40/128 and AES-128/256 with empty and non-empty user password, and the 11 protected fixtures: the protected member must raise the file-encrypted error before any result through the direct extractor, "
-            "read_file and the CLI; the plain member must never be rejected as encrypted; an empty-password PDF must extract the same text/units/images as its original.",
+            "PDF RC4-40/128 and AES-128/256 with empty and non-empty user password (owner password distinct or equal), and the 11 protected fixtures: the protected member must raise the file-encrypted error before any result through the direct extractor, "
+            "read_file, the CLI and, as typed attachment of an .eml, through iterate_supported_attachments(); the plain member must never be rejected as encrypted; an empty-password PDF must extract the same text/units/images as its original.",
             "Protected OOXML/legacy files are marker containers, not real ciphertext (the property is about rejection before content); PDFs are really encrypted (pypdf writer over the reference AES).",
             "DESIGN.md §8 C08"),
     "C09": ("exploration",
@@ -105,9 +105,10 @@ CHECKS = {
             "Same generators as C02; vlib/gen/images.py writes valid minimal raster containers.",
             "DESIGN.md §8 C14"),
     "C15": ("exploration",
-            "controlled scheduler (token passing at every access to the patched pypdf module attribute, DFS over schedules with stall detection for blocked threads) + 8-thread preemptive stress with 1 us switch interval + random extraction histories, all judged by a global-state snapshot and digests vs fresh-process baselines",
+            "controlled scheduler (token passing at every access to the patched pypdf module attribute and at scheduler-aware replacements of the extractor's module-level locks, DFS over schedules) + 8-thread preemptive stress with 1 us switch interval + random extraction histories, all judged by a global-state snapshot and digests vs fresh-process baselines",
             "All interleavings of two threads through the real patch/extract/restore section of PDF text extraction are enumerated (complete DFS), three threads preemption-bounded plus random schedules; after each schedule the "
             "patched function must be the original again and no thread may see the original inside its own section. A mixed PDF-heavy workload runs in 8 preempted threads and in random single-process histories (incl. failing inputs); "
+            "histories run over context groups (inputs sharing a sub-key whose meaning depends on the document: code page, part name, style id, rId, optional parts absent); "
             "results must equal baselines computed in fresh processes and the snapshot (patched function identity and wrapper depth, archive configuration, private TMPDIR, threads, open handles) must be restored.",
             "Scheduling points are the accesses to the patched attribute; races inside C-level calls are out of reach; the one-way AES provider patch is documented and excluded.",
             "DESIGN.md §8 C15"),
